@@ -220,6 +220,17 @@ func (x *Exec) eval(env *Env, ex Expr) SV {
 		}
 		return SV{T: Ite(c, a.T, b.T), Typ: typ}
 	case *EField:
+		if id, ok := e.X.(*EIdent); ok {
+			if _, isVar := env.vars[id.Name]; !isVar {
+				for _, p := range x.prog.AllPackages() {
+					if (p.Pkg.Name() == id.Name || shortPkgName(p.Pkg.Path()) == id.Name) && strings.Contains(p.Pkg.Path(), "RealDecisionMaker") {
+						if c, ok := p.Pkg.Scope().Lookup(e.Name).(*types.Const); ok {
+							return x.constSV(c)
+						}
+					}
+				}
+			}
+		}
 		v := x.eval(env, e.X)
 		return x.fieldSV(env, v, e.Name)
 	case *EIndex:
@@ -309,6 +320,30 @@ func (x *Exec) evalIdent(env *Env, name string) SV {
 	}
 	if env.fr != nil {
 		fi := x.info(env.fr.fn)
+		if name == "iter" && env.loop != nil && env.loop.rangeCell != nil {
+			ri, ok := env.state().cells[cellKey{env.fr.id, env.loop.rangeCell}]
+			if !ok {
+				specFail("iter: range index not available")
+			}
+			return SV{T: Arith("+", ri, IntLit(1))}
+		}
+		if as := fi.allocsByName[name]; len(as) > 0 {
+			var best *ssa.Alloc
+			for _, a := range as {
+				if _, ok := env.fr.vals[a]; ok {
+					if best == nil || env.fr.order[a] > env.fr.order[best] {
+						best = a
+					}
+				}
+			}
+			if best != nil {
+				val := env.fr.vals[best]
+				if val.Loc == nil {
+					specFail("local %q is not addressable", name)
+				}
+				return SV{T: x.load(env.state(), val.Loc), Typ: deref(best.Type())}
+			}
+		}
 		if name == "iter" && env.loop != nil && env.loop.rangeIdx != nil {
 			ri := env.fr.vals[env.loop.rangeIdx]
 			return SV{T: Arith("+", ri.T, IntLit(1))}
@@ -445,7 +480,7 @@ func (x *Exec) indexSV(env *Env, v SV, i SV) SV {
 		case *types.Slice:
 			comp, cs := x.elemComp(u.Elem())
 			h := env.heap(comp, cs)
-			return SV{T: Select(Select(h, SlArr(v.T)), Arith("+", SlOff(v.T), i.T)), Typ: u.Elem()}
+			return SV{T: Select(Select(h, SlArr(v.T)), Sidx(SlOff(v.T), i.T)), Typ: u.Elem()}
 		case *types.Map:
 			ks, vs := x.TI.SortOf(u.Key()), x.TI.SortOf(u.Elem())
 			mv := env.heap(mvComp(ks, vs), mvSort(ks, vs))
@@ -525,9 +560,9 @@ func (x *Exec) evalBinary(env *Env, e *EBinary) SV {
 		}
 		return SV{T: r, Typ: typ}
 	case "==":
-		return SV{T: x.eqTerm(a.T, b.T)}
+		return SV{T: Eq(a.T, b.T)}
 	case "!=":
-		return SV{T: Not(x.eqTerm(a.T, b.T))}
+		return SV{T: Not(Eq(a.T, b.T))}
 	case "<", "<=", ">", ">=":
 		if a.T.Sort == SStr {
 			lt := x.strLt()
